@@ -464,6 +464,14 @@ func classifyRange(p *packages.Package, site rangeSite) (class string, why strin
 			if ce, ok := x.X.(*ast.CallExpr); ok && callName(ce) == "delete" && len(ce.Args) == 2 {
 				return "delete", ""
 			}
+			// union into a set (maps.Copy into a map with empty-struct values): insertion, whatever the order
+			if ce, ok := x.X.(*ast.CallExpr); ok && callName(ce) == "maps.Copy" && len(ce.Args) == 2 && pure(ce.Args[1]) {
+				if mt, isMap := info.TypeOf(ce.Args[0]).Underlying().(*types.Map); isMap {
+					if st, isStruct := mt.Elem().Underlying().(*types.Struct); isStruct && st.NumFields() == 0 {
+						return "insert", ""
+					}
+				}
+			}
 			return "", "call with effects: " + nospace(x.X)
 		case *ast.RangeStmt:
 			return blockClass(x.Body.List)
@@ -990,8 +998,30 @@ func C19(c *Ctx) {
 						}
 					}
 				}
-				if sorted {
-					r.Ok("C19-a", construct, "", g.Where(ce.Pos()), "map iterator consumed through slices.Sorted")
+				// an extremum or a membership test over the keys does not depend on their order
+				for i := len(stack) - 2; i >= 0 && !sorted; i-- {
+					if pc, ok := stack[i].(*ast.CallExpr); ok {
+						switch callName(pc) {
+						case "slices.Min", "slices.Max", "slices.MinFunc", "slices.MaxFunc", "slices.Contains", "len":
+							sorted = true
+						}
+					}
+				}
+				// the keys collected as they come, where a tabled loop did the same (`for k := range m { ks = append(ks, k) }`
+				// restated as slices.Collect(maps.Keys(m))): the tabled argument is about what is done with the list
+				tabled := ""
+				if !sorted && cn == "maps.Keys" {
+					prefix := p.Types.Name() + "." + fd.Name.Name + ":range(" + nospace(ce.Args[0]) + ")#"
+					for k, e := range orderReasons {
+						if strings.HasPrefix(k, prefix) && e.effects == "writes=<[]string>" {
+							tabled = e.reason
+						}
+					}
+				}
+				if tabled != "" {
+					r.Ok("C19-a", construct, "", g.Where(ce.Pos()), "tabled (as the collecting range it restates): "+tabled)
+				} else if sorted {
+					r.Ok("C19-a", construct, "", g.Where(ce.Pos()), "map iterator consumed through slices.Sorted, an extremum or a membership test")
 				} else {
 					r.Bad("C19-a", construct, "", g.Where(ce.Pos()), "iterates a map in Go's random order (the result is not passed through slices.Sorted): the order can reach the generated file")
 				}
